@@ -178,7 +178,18 @@ var keywordKeys = []string{"for", "if", "in", "null", "true", "false", "else", "
 var identKeys = []string{"a", "b", "k1", "x-y", "_u", "é", "日本", "a-", "A1", "é", "for_", "forx", "fo", "nul", "True", "FOR", "a--b", "a_b-c9", "ĳ", "Ω"}
 var nonIdentKeys = []string{"", "1a", "a b", "a.b", "-x", "a=b", "${x}", "%{y}", "for x", "\n", "0", "1.5", "a[0]", "a\"b", "a\\b", " for", "for ", "a:b", "#", "a/b", "*", "$", "%", "{", "}", "a,b", "null ", "tru e", "007", "1e3", "0x10", "1_000", "٣", "\ufeffa", "\ufeff", "a\ufeff", "\ufefffor"}
 
+// borderKeys: characters on which "is this an identifier character" depends on the Unicode version or on the
+// exact property consulted (ID_Start / ID_Continue of the scanner's tables vs general categories): letters
+// added after Unicode 9, enclosing marks, Other_ID_Start / Other_ID_Continue characters, letters that are
+// also Pattern_Syntax, letter-like symbols, digits of other scripts.
+var borderKeys = []string{"\u0560", "a\u0560", "\u1c90", "\U00030000", "a\U00030000", "a\u20dd", "\u0488", "a\u0488b", "\u2e2f", "a\u00b7b", "a\u203fb", "\u2118", "\u212e", "\u309b", "a\u1369",
+	"a\u19da", "a\u0387", "\u1885", "\u2160", "a\u2160", "\u00aa", "\u00b5", "\u02ec", "\u0345", "a\u0345", "\u16ee", "\u3007", "\ua7ae", "\U0001e900", "\U00016e40", "a\u200c", "a\u200db", "\u2054a", "a\u2054",
+	"\uff3f", "a\uff3f", "\u1d2c", "\u24b6", "a\u24b6", "\u00b2", "a\u00b2", "\u0660", "a\u0660", "\u0e3f", "\u2e80", "\u4dc0"}
+
 func genKey(r *lib.Rand) string {
+	if r.Chance(1, 8) {
+		return borderKeys[r.Intn(len(borderKeys))]
+	}
 	switch r.Weighted([]int{5, 4, 3, 4}) {
 	case 0:
 		return keywordKeys[r.Intn(len(keywordKeys))]
